@@ -162,6 +162,22 @@ fn ok_program(rng: &mut Rng) -> String {
     gen::program(rng, &ty, fuel, 5)
 }
 
+/// Recursive *value* bindings (`rec let x = <not a function>`): legal ones (records and variants
+/// that refer to themselves through a closure) and ones the front end has to reject
+fn rec_value_program(rng: &mut Rng) -> String {
+    let k = rng.below(100);
+    let body = match rng.below(7) {
+        0 => format!("rec let t = {}\nt\n", k),
+        1 => format!("rec let f x = x #Int+ {}\nlet t = f 1\nt\n", k),
+        2 => format!("rec let r = {{ a = {}, g = \\u -> r.a }}\nr.g ()\n", k),
+        3 => format!("rec let v = Node Tip \"s{}\" Tip\n1\n", k),
+        4 => format!("rec let t = \"s{}\"\nlet u = string.len t\nu\n", k),
+        5 => format!("rec let a = [{}, 2]\narray.len a\n", k),
+        _ => format!("rec let r = {{ a = {}, g = \\u -> s.b }}\nlet s = {{ b = r.a #Int+ 1 }}\nr.g ()\n", k),
+    };
+    format!("{}{}", gen::PREAMBLE, body)
+}
+
 fn io_program(rng: &mut Rng) -> String {
     // IO typed programs (run with run_io): polymorphic results, exceptions, catch
     let v = rng.below(5);
@@ -240,7 +256,7 @@ impl Engine for C06 {
 
     fn info(&self) -> EngineInfo {
         EngineInfo {
-            rule: "one run = one long-lived VM executing a generated history of 3-10 evaluations: succeeding generated programs, failing programs (explicit error, index out of range, division by zero, integer overflow, failing host function, invalid string slice) buried under recursion depth / closures / partial and over-application / data construction, IO-typed programs with run_io (throw, catch, polymorphic results), and calls of exported std primitives (string, array, int, float, byte, char, prim) on boundary-value tuples. While a step runs, the debug hook (CALL events) yields to the simulator at tape-chosen points where it injects: forced/explicit collections, interrupt, allocation failure (memory limit = allocated + delta), stack limit, cancellation (the evaluation future is dropped). Every step is mirrored on a brand new VM. Non-trivial = a step failed or a fault fired, and a later step ran on the same VM; distinct = distinct hash of (workload, decision tape).",
+            rule: "one run = one long-lived VM executing a generated history of 3-10 evaluations: succeeding generated programs, failing programs (explicit error, index out of range, division by zero, integer overflow, failing host function, invalid string slice, recursive value bindings that the front end has to reject next to legal ones) buried under recursion depth / closures / partial and over-application / data construction, IO-typed programs with run_io (throw, catch, polymorphic results), and calls of exported std primitives (string, array, int, float, byte, char, prim) on boundary-value tuples. While a step runs, the debug hook (CALL events) yields to the simulator at tape-chosen points where it injects: forced/explicit collections, interrupt, allocation failure (memory limit = allocated + delta), stack limit, cancellation (the evaluation future is dropped). Every step is mirrored on a brand new VM. Non-trivial = a step failed or a fault fired, and a later step ran on the same VM; distinct = distinct hash of (workload, decision tape).",
             real: vec!["parser/checker/compiler/VM, all std *.prim extern modules (vm/src/primitives.rs), api::function wrappers (extern \"C\"), error propagation and reset_stack in call_thunk_top/execute_io_top, io.catch/throw, debug hook, interrupt flag, memory/stack limits"],
             stubbed: vec!["executor (simulator polls the evaluation future, acts between polls)", "host = generated step list"],
             not_exercised: vec!["std.io file functions, std.fs, std.process, std.env, std.regex, std.random, std.http"],
@@ -266,6 +282,8 @@ impl Engine for C06 {
                 ("ok", ok_program(rng))
             } else if roll < 55 {
                 ("fail", failing_program(rng))
+            } else if roll < 59 {
+                ("fail", rec_value_program(rng))
             } else if roll < 65 {
                 ("io", io_program(rng))
             } else {
